@@ -147,7 +147,7 @@ pub fn dispatch(t: &[&str]) -> Option<String> {
         .unwrap();
     let _g = rt.enter();
     // a parked run_once may take either ready arm; rerun the whole case until the requested one is taken
-    for _attempt in 0..4000 {
+    for _attempt in 0..200 {
         if let Some(s) = run(t) {
             return Some(s);
         }
